@@ -436,11 +436,17 @@ pub struct Case {
     pub refuse: Vec<usize>,
     /// refuse call `refuse[0]` and every later modelled call of the same operation
     pub sticky: bool,
+    /// after `ops`: repeat these operations until one of them makes the allocator give back a whole mapping
+    /// (a release pass) or `loop_max` repetitions were done ...
+    pub loop_ops: Vec<Op>,
+    pub loop_max: usize,
+    /// ... then run these
+    pub post: Vec<Op>,
 }
 
 impl Case {
     pub fn plain(phase: &'static str, ops: Vec<Op>) -> Case {
-        Case { phase, seed_name: String::new(), seed: vec![], ops, script: vec![], default_policy: Policy::TopDown, refuse: vec![], sticky: false }
+        Case { phase, seed_name: String::new(), seed: vec![], ops, script: vec![], default_policy: Policy::TopDown, refuse: vec![], sticky: false, loop_ops: vec![], loop_max: 0, post: vec![] }
     }
     pub fn to_json(&self) -> Value {
         json!({
@@ -452,12 +458,16 @@ impl Case {
             "default_policy": self.default_policy.letter().to_string(),
             "refuse": self.refuse,
             "sticky": self.sticky,
+            "loop": show_ops(&self.loop_ops),
+            "loop_max": self.loop_max,
+            "post": show_ops(&self.post),
         })
     }
     pub fn from_json(v: &Value) -> Case {
         let phase: &'static str = match v["phase"].as_str().unwrap_or("hist") {
             "boundary" => "boundary",
             "placement" => "placement",
+            "multiseg" => "multiseg",
             "oom" => "oom",
             _ => "hist",
         };
@@ -470,6 +480,9 @@ impl Case {
             default_policy: v["default_policy"].as_str().and_then(|s| s.chars().next()).and_then(Policy::from_letter).unwrap_or(Policy::TopDown),
             refuse: v["refuse"].as_array().map(|a| a.iter().filter_map(|x| x.as_u64().map(|x| x as usize)).collect()).unwrap_or_default(),
             sticky: v["sticky"].as_bool().unwrap_or(false),
+            loop_ops: parse_ops(&v["loop"]),
+            loop_max: v["loop_max"].as_u64().unwrap_or(0) as usize,
+            post: parse_ops(&v["post"]),
         }
     }
 }
@@ -486,6 +499,8 @@ pub struct RunInfo {
     pub completed: bool,
     pub refusal_hit: bool,
     pub peak_footprint: usize,
+    /// one operation made the allocator give back two or more whole mappings
+    pub multi_release: bool,
 }
 
 /// Run a case with the oracle after every operation.  Violations and outcome classes go to `r`.
@@ -506,10 +521,27 @@ pub fn run_case(w: &mut World, c: &Case, r: &mut Report, verbose: bool) -> RunIn
         s[..s.len() - 1].to_string()
     };
     let mut after_refusal = false;
-    let total = c.seed.len() + c.ops.len();
+    // the operations to run; the loop part and the post part are appended when the end is reached
+    let mut queue: Vec<Op> = c.seed.iter().chain(c.ops.iter()).copied().collect();
+    let mut loops_done = 0usize;
+    let mut loop_released = false;
+    let mut post_added = c.loop_ops.is_empty() && c.post.is_empty();
     let mut i = 0;
-    while i < total {
-        let op = if i < c.seed.len() { c.seed[i] } else { c.ops[i - c.seed.len()] };
+    loop {
+        if i == queue.len() {
+            if !post_added && !c.loop_ops.is_empty() && loops_done < c.loop_max && !loop_released {
+                queue.extend_from_slice(&c.loop_ops);
+                loops_done += 1;
+            } else if !post_added {
+                post_added = true;
+                r.outcome(if c.loop_ops.is_empty() { "post-part" } else if loop_released { "loop-ended-by-release-pass" } else { "loop-ended-by-repetition-limit" });
+                queue.extend_from_slice(&c.post);
+            }
+            if i == queue.len() {
+                break;
+            }
+        }
+        let op = queue[i];
         if i == c.seed.len() {
             info.calls_in_seed = w.k.calls;
         }
@@ -532,6 +564,14 @@ pub fn run_case(w: &mut World, c: &Case, r: &mut Report, verbose: bool) -> RunIn
             );
         }
         r.outcome(&outcome_class(op, &st));
+        let n_released = st.events.iter().filter(|e| matches!(e, Ev::UnmapWhole)).count();
+        if n_released >= 2 {
+            r.outcome("release-pass-released>=2-segments");
+            info.multi_release = true;
+        }
+        if n_released >= 1 && loops_done > 0 && !post_added {
+            loop_released = true;
+        }
         let report = |r: &mut Report, kind: &str, desc: &str| {
             let key = if after_refusal {
                 "C03:oom:heap-unusable-afterwards".to_string()
